@@ -287,6 +287,7 @@ func witnesses(c *core.Ctx) {
 	dstPass(c)
 	ladderWitness(c)
 	unalignedIntervalWitness(c)
+	gocWitness(c)
 }
 
 // dstWitness replays Props.C13.Neg.dst_25h_day_slot_wraps on the real code with
@@ -475,8 +476,13 @@ func randomCase(c *core.Ctx, r *rand.Rand, i int) {
 		c.Branch("stream/malformed")
 		malformed(c, r)
 	default:
-		c.Branch("stream/shard")
-		shardCase(c, r, i)
+		if r.Intn(3) == 0 {
+			c.Branch("stream/shard-concurrent-writers")
+			gocCase(c, r)
+		} else {
+			c.Branch("stream/shard")
+			shardCase(c, r, i)
+		}
 	}
 }
 
